@@ -93,6 +93,18 @@ func NewEnv() *Env {
 			e.Trace = append(e.Trace, args[0].String()+":"+Canon(args[1]))
 			return args[1], nil
 		}),
+		// pack(*args, **kwargs) keeps what it is given: it returns the very tuple of
+		// positional arguments the interpreter handed it (and the keyword pairs as a dict).
+		"pack": starlark.NewBuiltin("pack", func(th *starlark.Thread, b *starlark.Builtin, args starlark.Tuple, kwargs []starlark.Tuple) (starlark.Value, error) {
+			if len(kwargs) == 0 {
+				return args, nil
+			}
+			d := starlark.NewDict(len(kwargs))
+			for _, kv := range kwargs {
+				d.SetKey(kv[0], kv[1])
+			}
+			return starlark.Tuple{args, d}, nil
+		}),
 		"mk": starlark.NewBuiltin("mk", func(th *starlark.Thread, b *starlark.Builtin, args starlark.Tuple, kwargs []starlark.Tuple) (starlark.Value, error) {
 			return NewObj(), nil
 		}),
